@@ -1,12 +1,12 @@
 (* C13 - volatile stream adapters transfer data exactly like their std::io counterparts.
    Statements only.  [vm_step md k st o] is one operation o of the vm-memory adapter of kind k
-   (Impl/Io.v; &[u8], &mut [u8], Vec<u8>, Cursor<T>, Cursor<&mut [u8]>, File, byte queue) on stream state
+   (Impl/Io.v; &[u8], &mut [u8], Vec<u8>, Cursor<T>, Cursor<&mut [u8]>, File, byte queue, message queue) on stream state
    st, with the buffer placed in an arena [arena b = 8 canaries ++ b ++ 8 canaries]; [std_step k st o]
    is the documented std::io operation (Impl/Std.v) on the same state with an ordinary buffer.
    Result codes: (0,n) Ok(n)  (1,0) Ok(())  (2,0) UnexpectedEof  (3,0) WriteZero  (9,0) position set.
    [op_wf] / [st_inv] only exclude arithmetic beyond 2^64 (buffers and vectors longer than the
    address space, cursor positions not fitting u64); every content, length and position is covered. *)
-From VM Require Import Prelude.MachInt Prelude.Outcome Prelude.C1314List Impl.Io Impl.Std Spec.C13 Suite.C13 Proofs.C13.
+From VM Require Import Prelude.MachInt Prelude.Outcome Prelude.C1314List Impl.Io Impl.Std Impl.IoGuest Spec.C13 Suite.C13 Proofs.C13.
 
 (* the model satisfies the executable checker on every well-formed history (any length) *)
 Theorem C13_model_ok : forall c, wf13 c -> ok_C13 c (run_C13 c) = true.
@@ -43,7 +43,7 @@ Theorem C13_exact_ok_iff : forall md k content st o budget st' m rc,
   | KSliceR | KCurR | KSliceW | KCurW =>
       (nlen (op_buf o) <= room_of k st -> rc = (1, 0))
       /\ (room_of k st < nlen (op_buf o) -> rc = if is_read o then (2, 0) else (3, 0))
-  | KFile | KQueue => exists ost bs, std_step k st o = Val (ost, bs, rc)
+  | KFile | KQueue | KMsgQ => exists ost bs, std_step k st o = Val (ost, bs, rc)
   end.
 Proof. exact exact_ok_iff_lemma. Qed.
 
@@ -77,6 +77,37 @@ Theorem C13_default_write_all_eq_std : forall (F : Type) (os_write : F -> list N
     /\ (r = Ok tt -> of = Some f') /\ (r <> Ok tt -> of = None).
 Proof. exact default_write_all_eq_std_lemma. Qed.
 
+(* the message queue (AF_UNIX SOCK_SEQPACKET / SOCK_DGRAM socketpair), in closed form: an exact read is
+   served in PIECES, one message per round of the default loop.  For a queue holding the messages [ms]
+   (payload bytes < 256) the adapter returns what [msgq_exact ms (nlen b) []] computes by recursion over
+   the message list: Ok when the messages in front are non-empty until the buffer is full - the buffer
+   then holds the concatenated pieces, the excess of the last message used is discarded, the remaining
+   messages stay queued -, UnexpectedEof at an empty message, the descriptor's EAGAIN on a drained queue *)
+Theorem C13_msgq_read_exact_pieces : forall md ms b p, Forall payload_ok ms -> buf_ok b ->
+  exists st' b',
+    vm_step md KMsgQ (msgq_state p [] ms) (OReadExact b)
+      = Val ((st', arena b'), rc_unit (snd (msgq_exact ms (nlen b) [])))
+    /\ nlen b' = nlen b
+    /\ (forall ms', fst (fst (msgq_exact ms (nlen b) [])) = Some ms' ->
+          st' = msgq_state p [] ms' /\ b' = snd (fst (msgq_exact ms (nlen b) []))).
+Proof. exact msgq_read_exact_pieces_lemma. Qed.
+
+(* stream kinds 11 / 12 of the suite reach the descriptor through VolatileSlice::{read_volatile_from,
+   read_exact_volatile_from, write_volatile_to, write_all_volatile_to}(0, fd, len) on the buffer's own
+   slice (Impl/IoGuest.v vs_* : offset / subslice / get_slice, retry_eintr!, then the ReadVolatile /
+   WriteVolatile call): for the descriptor oracles of the suite this is the same computation as the
+   direct call that [vm_step] models *)
+Theorem C13_slice_route_same : forall k b st f, is_fd k = true -> buf_ok b ->
+  vs_read_volatile_from (Datatypes.S f) (read_volatile_raw_fd (os_read_of k)) (win b) 0 st (arena b) (nlen b)
+    = read_volatile_raw_fd (os_read_of k) st (arena b) (win b)
+  /\ vs_read_exact_volatile_from (fuel_of b) (read_volatile_raw_fd (os_read_of k)) (win b) 0 st (arena b) (nlen b)
+    = read_exact_volatile (fuel_of b) (read_volatile_raw_fd (os_read_of k)) st (arena b) (win b)
+  /\ vs_write_volatile_to (Datatypes.S f) (write_volatile_raw_fd (os_write_of k)) (win b) 0 st (arena b) (nlen b)
+    = write_volatile_raw_fd (os_write_of k) st (arena b) (win b)
+  /\ vs_write_all_volatile_to (fuel_of b) (write_volatile_raw_fd (os_write_of k)) (win b) 0 st (arena b) (nlen b)
+    = write_all_volatile (fuel_of b) (write_volatile_raw_fd (os_write_of k)) st (arena b) (win b).
+Proof. exact slice_route_same_lemma. Qed.
+
 (* non-vacuity: a cursor past the end, then repositioned, read short, then an exact read that fails *)
 Example C13_nonvacuous :
   let c := {| c_mode := Debug; c_kind := KCurR;
@@ -94,6 +125,37 @@ Proof.
   - vm_compute. repeat split.
 Qed.
 
+(* non-vacuity for the message queue: the exact read of 8 bytes is assembled from THREE messages (3 + 3 + 2),
+   the fourth stays queued; a 2-byte read of it discards the excess; the empty queue answers EAGAIN
+   ((5,0), passed on unchanged); an empty message ends an exact read with UnexpectedEof; writes enqueue
+   one message each (also the empty one) *)
+Example C13_msgq_nonvacuous :
+  let c := {| c_mode := Debug; c_kind := KMsgQ;
+              c_init := {| s_data := [1;2;3;256; 4;5;6;256; 7;8;256; 9;10;11;12;256]; s_pos := 0; s_out := [] |};
+              c_ops := [OReadExact [0;0;0;0;0;0;0;0]; ORead [0;0]; ORead [0]; OWrite [5;6]; OWrite []] |} in
+  let d := {| c_mode := Debug; c_kind := KMsgQ;
+              c_init := {| s_data := [1;2;3;256; 256; 4;5;6;256]; s_pos := 0; s_out := [] |};
+              c_ops := [OReadExact [0;0;0;0;0]; ORead [0;0;0;0;0]] |} in
+  wf13 c /\ ok_C13 c (run_C13 c) = true
+  /\ map a_rc (run_C13 c) = [(1,0); (0,2); (5,0); (0,2); (0,0)]
+  /\ map a_buf (run_C13 c) = [[1;2;3;4;5;6;7;8]; [9;10]; [0]; [5;6]; []]
+  /\ map a_data (run_C13 c) = [[9;10;11;12;256]; []; []; []; []]
+  /\ map a_out (run_C13 c) = [[]; []; []; [5;6;256]; [256]]
+  /\ map a_rc (run_C13 d) = [(2,0); (0,3)] /\ map a_buf (run_C13 d) = [[1;2;3;0;0]; [4;5;6;0;0]].
+Proof.
+  split.
+  - split; [reflexivity|]. split; [|exact I].
+    repeat constructor; cbn; unfold buf_ok; cbn; rewrite ?W64_val; try reflexivity; lia.
+  - vm_compute. repeat split.
+Qed.
+
+Example C13_msgq_exact_nonvacuous :
+  msgq_exact [[1;2;3]; [4;5;6]; [7;8]; [9;10;11;12]] 8 [] = (Some [[9;10;11;12]], [1;2;3;4;5;6;7;8], Ok tt)
+  /\ msgq_exact [[1;2;3]; [4;5;6]] 5 [] = (Some [], [1;2;3;4;5], Ok tt)
+  /\ msgq_exact [[1;2;3]; []; [4;5;6]] 5 [] = (None, [], Err (VIo EUnexpectedEof))
+  /\ msgq_exact [[1;2;3]] 5 [] = (None, [], Err (VIo EOther)).
+Proof. vm_compute. repeat split. Qed.
+
 Print Assumptions C13_model_ok.
 Print Assumptions C13_adapter_eq_std.
 Print Assumptions C13_adapter_eq_std_histories.
@@ -101,3 +163,5 @@ Print Assumptions C13_exact_ok_iff.
 Print Assumptions C13_never_beyond_buffer.
 Print Assumptions C13_default_read_exact_eq_std.
 Print Assumptions C13_default_write_all_eq_std.
+Print Assumptions C13_msgq_read_exact_pieces.
+Print Assumptions C13_slice_route_same.
